@@ -249,6 +249,29 @@ def run(ctx):
                                        summary=f"dedupe ({back}) on {len(pre)} short line(s) followed by a {ln}-byte line given twice: {len(ol)} lines out with lengths "
                                                f"{[len(x) for x in ol[:6]]}, expected the {len(dict.fromkeys(ls))} distinct lines (status {st})")
                 break
+    # regular files (mmap path) whose size sweeps the last page of the second 1 MiB + 4 KiB window and the pages around it: 100-byte
+    # lines, the last few lines repeats of earlier ones; every size must give the first occurrences, as the same bytes on a pipe do
+    win = 1052672
+    sizes = sorted(set([2 * win - 4096 + d for d in range(-300, 4500, 100)] + [2 * win + d for d in (-100, 0, 100)] + [win + d for d in (-100, 0, 100, 4000)] + [rng.randrange(win, 3 * win) for _ in range(6)]))
+    if ctx.tier == "quick":
+        sizes = sizes[::3] + sizes[1:8]
+    body = [b"a%09d " % i + bytes(33 + (i + j) % 90 for j in range(88)) for i in range(3 * win // 100 + 2)]
+    fpath = os.path.join(ctx.tmp, "winfile.txt")
+    for sz in sizes:
+        nlines = sz // 100
+        ls = body[:nlines - 3] + body[5:8]
+        data = b"".join(l + b"\n" for l in ls)
+        open(fpath, "wb").write(data)
+        st, out, err = pvlib.run_tool([ctx.bin("dedupe")], env=pvlib.san_env(), stdin_file=fpath, timeout=120)
+        ctx.count("dedupe.file-window-sizes", 1, [sz])
+        want = b"".join(l + b"\n" for l in body[:nlines - 3])
+        if st != 0 or out != want:
+            pvlib.report_violation(ctx, f"dedupe-file-size:{len(data)}", {"argv": ["dedupe"], "backing": "regular file (mmap)", "status": st,
+                                   "generator": f"{nlines - 3} distinct 100-byte lines 'a%09d ' + 88 bytes, then lines 5..7 again: {len(data)} bytes",
+                                   "output_bytes": len(out), "expected_bytes": len(want), "last_output_line": out.split(b"\n")[-2][:40].decode(errors="replace") if out.count(b"\n") else ""},
+                                   summary=f"dedupe < regular file of {len(data)} bytes ({nlines} lines of 100 bytes): {len(out)} bytes out, expected the {len(want)} bytes of the distinct lines (status {st})")
+            break
+    # parallel mode
     corr_break = None
     for _ in range(40 if ctx.tier == "quick" else 400):
         k = rng.randrange(0, 12)
